@@ -80,6 +80,7 @@ inductive DOp (V : Type) where
   | remKey (i : Nat)
   | renFromKey (i : Nat) (to : List Nat)
   | renToKey (i : Nat) (frm : List Nat)
+  | lookKey (i : Nat)
 
 def parseDOp {V : Type} (io : ValIO V) (s : String) : Option (DOp V) :=
   match s.splitOn "/" with
@@ -90,6 +91,16 @@ def parseDOp {V : Type} (io : ValIO V) (s : String) : Option (DOp V) :=
   | ["RK", i] => do let i ← i.toNat?; pure (.remKey i)
   | ["NK", i, k] => do let i ← i.toNat?; let k ← parseNats k; pure (.renFromKey i k)
   | ["NT", i, k] => do let i ← i.toNat?; let k ← parseNats k; pure (.renToKey i k)
+  -- thin wrappers: NUL-terminated key overloads = the pointer+length operation
+  | ["RC", k] => do let k ← parseNats k; pure (.plain (.remove k))
+  | ["GC", k] => do let k ← parseNats k; pure (.plain (.get k))
+  -- the key given as a pointer into the table's own key storage (stored key of slot i)
+  | ["PG", i] => do let i ← i.toNat?; pure (.getKey i)
+  | ["PB", i] => do let i ← i.toNat?; pure (.getKey i)
+  | ["PI", i, v] => do let i ← i.toNat?; let v ← io.parse v; pure (.insKey i v)
+  | ["PR", i] => do let i ← i.toNat?; pure (.remKey i)
+  | ["PC", i] => do let i ← i.toNat?; pure (.remKey i)
+  | ["PL", i] => do let i ← i.toNat?; pure (.lookKey i)
   | _ => (parseOp io s).map .plain
 
 /-- `look k` = value stored under `k`, `at i` = live entry of slot `i` (both in the current state). -/
@@ -105,6 +116,7 @@ def resolve {V : Type} (hasValue : Bool) (look : List Nat → Option V) (at_ : N
   | .remKey i => (at_ i).map fun e => .remove e.1
   | .renFromKey i to => (at_ i).map fun e => .rename e.1 to
   | .renToKey i frm => (at_ i).map fun e => .rename frm e.1
+  | .lookKey i => (at_ i).map fun e => .lookup e.1
 
 def parseOps {V : Type} (io : ValIO V) (s : String) : Option (List (DOp V)) :=
   if s == "-" then some [] else (s.splitOn ";").mapM (parseDOp io)
